@@ -212,6 +212,18 @@ def text_document_history(ctx, doc, allnodes):
             return
 
 
+def key_variants(k):
+    import unicodedata
+    import urllib.parse
+
+    out = []
+    for t in [unicodedata.normalize(f, k) for f in ("NFC", "NFD", "NFKC", "NFKD")] + [k.lower(), k.upper(), k.casefold(), k.strip(), k + " ", " " + k, k + "\u200b", urllib.parse.quote(k, safe=""), k.replace("%", "%25"),
+              k.encode("utf-8", "surrogatepass").decode("latin-1"), k.replace("\\", "\\\\"), k.replace("/", "~1")]:
+        if t != k and t not in out:
+            out.append(t)
+    return out
+
+
 def run(spec, ctx):
     r = ctx.rng
     names = [n for n in gen.ALL_NAMES if not re.fullmatch(r"[0-9]{16,}", n)]
@@ -236,7 +248,15 @@ def run(spec, ctx):
                 par = rp.resolve(doc, toks[:-1])
                 if isinstance(par, list):
                     muts += [toks[:-1] + [t] for t in ("+" + toks[-1], " " + toks[-1], "0" + toks[-1], toks[-1] + "_0", toks[-1] + "e0", toks[-1] + ".0", "".join(chr(0xff10 + int(c)) for c in toks[-1]), "".join(chr(0x660 + int(c)) for c in toks[-1]))]
-            for m in r.sample(muts, min(len(muts), 8)):
+            # look-alike spellings of member names that exist (Unicode normal forms, case, blanks, percent- and byte-level re-encodings)
+            near = []
+            if isinstance(val, dict):
+                near += [toks + [t] for k in list(val)[:4] for t in key_variants(k) if t not in val]
+            if toks and isinstance(rp.resolve(doc, toks[:-1]), dict):
+                near += [toks[:-1] + [t] for t in key_variants(toks[-1]) if t not in rp.resolve(doc, toks[:-1])]
+            if near:
+                ctx.count("lookalike_member_name_tokens", len(near))
+            for m in r.sample(muts, min(len(muts), 8)) + r.sample(near, min(len(near), 6)):
                 if is_extension(m[-1]) or any(is_extension(t) for t in m):
                     continue
                 try:
